@@ -2,6 +2,7 @@ package h
 
 import (
 	"fmt"
+	"strings"
 	"os"
 	"path/filepath"
 	"runtime/debug"
@@ -94,7 +95,13 @@ func (rc *RunCtx) Note(cr *CheckRun) {
 	}
 	rc.Tracef("program:\n%s", cr.Prog)
 	if rc.Verbose {
-		for _, inv := range cr.W.Invs {
+		for k, inv := range cr.W.Invs {
+			if k >= 40 && k < len(cr.W.Invs)-40 {
+				if k == 40 {
+					rc.Tracef("  … %d invocations not shown …", len(cr.W.Invs)-80)
+				}
+				continue
+			}
 			rc.Tracef("  inv %d %s custom=%v end=%s site=%s buf=%s draws={%s} actions=%v", inv.Idx, inv.Phase, inv.Custom, inv.EndState, inv.SiteKey(), bufStr(inv.Info.Buf), drawsStr(inv.Draws), inv.Actions)
 			if inv.Info.Persist {
 				rc.Tracef("     recorded %s", bufStr(inv.RecData))
@@ -141,9 +148,16 @@ func runOne(spec *Spec, idx int, tape *Tape) (res Result) {
 	res.Key = rc.Key
 	if len(rc.Viols) > 0 || spec.KeepTape || spec.Tapes != nil {
 		res.Tape = tape.Out
+		var tb strings.Builder
 		for _, l := range rc.Trace {
-			res.Trace += l + "\n"
+			if tb.Len() > 1<<20 {
+				tb.WriteString("… (trace truncated)\n")
+				break
+			}
+			tb.WriteString(l)
+			tb.WriteString("\n")
 		}
+		res.Trace = tb.String()
 	}
 	res.WallUs = time.Since(start).Microseconds()
 	return res
